@@ -4015,6 +4015,16 @@ async fn run_gathering_loop(
         if state == crate::transports::ice::IceGathererState::Complete {
             break;
         }
+        // The transport may have been stopped before this task first ran (close() right after
+        // creation): the receivers above were subscribed after that change, so `changed()`
+        // would never fire for it and this loop would wait forever.
+        if matches!(
+            *ice_state_rx.borrow(),
+            crate::transports::ice::IceTransportState::Closed
+                | crate::transports::ice::IceTransportState::Failed
+        ) {
+            break;
+        }
         tokio::select! {
             res = rx.changed() => {
                 if res.is_err() { break; }
